@@ -141,6 +141,7 @@ func runTok(which string) func(in sx.SX) (sx.SX, string) {
 		setOptions(t0, 0)
 		raw := t0.TokenizeBuffer(text)
 		switch which {
+		case "C03":
 		case "C04":
 			var sb strings.Builder
 			for i, r := range raw {
